@@ -251,7 +251,7 @@ fn drive_engine(id: &str, flavour: &str, rng: &mut Rng, maxops: u64) -> Runner {
             }
             // keep the pool inside a range TLC can multiply
             let side = if x > 220000 { "sell" } else if x < 45000 { "buy" } else if rng.chance(50) { "buy" } else { "sell" };
-            let side = if has && rng.chance(35) {
+            let side = if has && rng.chance(if flavour == "funding" { 60 } else { 35 }) {
                 // bias: trade against the current position (reduce / reverse)
                 if num(&p["size"]) > 0 { "sell" } else { "buy" }
             } else {
@@ -295,10 +295,14 @@ fn drive_engine(id: &str, flavour: &str, rng: &mut Rng, maxops: u64) -> Runner {
             }
             let limit = if rng.chance(6) { rng.range(1, 50000) } else { 0 };
             r.op(&json!({"k": "tx", "c": "engine", "m": "liquidate", "s": by, "a": {"vamm": v, "trader": target, "limit": limit}}));
-        } else if roll < 82 {
+        } else if roll < 82 || (flavour == "funding" && roll < 90) {
             r.op(&json!({"k": "tx", "c": "engine", "m": "pay_funding", "s": *rng.pick(&["liq", "tr1", "stranger"]), "a": {"vamm": v}}));
         } else if roll < 93 {
-            let dt = *rng.pick(&[1i64, 15, 15, 15, 60, 900, 901, 1800, 3600, 3601]);
+            let dt = if flavour == "funding" {
+                *rng.pick(&[15i64, 900, 1799, 1800, 1801, 3599, 3600, 3601, 3600])
+            } else {
+                *rng.pick(&[1i64, 15, 15, 15, 60, 900, 901, 1800, 3600, 3601])
+            };
             r.op(&json!({"k": "block", "dh": 1, "dt": dt}));
         } else if roll < 97 {
             let price = *rng.pick(&[600i64, 800, 900, 1000, 1000, 1100, 1250, 1500]);
